@@ -770,8 +770,13 @@ func (r *Router) processEvent(ev *types.Event, reqID interface{}) error {
 			}
 
 			// If the span was kept, we want to generate a probe that we'll forward
-			// to a peer IF this span would have been forwarded.
-			ev.Data.MetaRefineryProbe.Set(true)
+			// to a peer IF this span would have been forwarded. The span itself
+			// has already been queued for upstream transmission, which serializes
+			// it only when its batch is sent, so the probe must be a copy: marking
+			// or re-addressing the original would change what Honeycomb receives.
+			probe := *ev
+			probe.Data.MetaRefineryProbe.Set(true)
+			ev = &probe
 			isProbe = true
 		}
 	}
